@@ -7,7 +7,7 @@ entity, delete another object} (before_* hooks) x {nothing, read} (after_* hooks
 log of the whole execution:
   * every INSERT / UPDATE / DELETE of an object is preceded by exactly one matching before_* call for it
     (since that object's previous statement) and followed by exactly one matching after_* call;
-  * no hook runs without its statement;
+  * no after_* hook runs without its statement;
   * attribute changes and objects made inside before_* hooks are in the committed rows.
 """
 import re
@@ -120,8 +120,8 @@ def judge(ev):
                 if pending_before.get(K, 0) < 1: bad.add('%s without before_%s' % (K.upper(), K))
                 else: pending_before[K] -= 1
                 pending_stmt[K] = pending_stmt.get(K, 0) + 1
-        for K, n in pending_before.items():
-            if n: bad.add('before_%s without a %s statement' % (K, K.upper()))
+        # a before_* call whose statement never comes is not excluded by the property (a later hook may
+        # delete the object or cancel its change): only statements are quantified over
         for K, n in pending_stmt.items():
             if n: bad.add('%s without after_%s' % (K.upper(), K))
     return sorted(bad)
@@ -167,14 +167,14 @@ def worker(args):
         sub.count('flush_histories')
         ev = events(x)
         sub.count('hook_calls', len([e for e in ev if '_' in e[0]])); sub.count('statements', len([e for e in ev if '_' not in e[0]]))
-        if x.obs[-1][0] != 'ok':
-            sub.count('flush_failed'); return            # a failing flush rolls back: hooks cannot be matched
+        if any(o[0] != 'ok' for o in x.obs):
+            sub.count('flush_failed'); return            # a failing operation / flush rolls back: hooks cannot be matched
         bad = problems(x, hist)
         if not bad: return
         pre = (sx.kinds(hist), tuple(bad))
         if pre in presigs:
             sub.violation(presigs[pre], {}, ''); return
-        small = sx.shrink(hist, lambda h: (lambda y: y.obs[-1][0] == 'ok' and bool(problems(y, h)))(run_cfg(h)))
+        small = sx.shrink(hist, lambda h: (lambda y: all(o[0] == 'ok' for o in y.obs) and bool(problems(y, h)))(run_cfg(h)))
         bad2 = problems(run_cfg(small), small) or bad
         sig = 'before=%s after=%s|%s|%s' % (before, after, sx.kinds(small), '; '.join(bad2))
         presigs[pre] = sig
